@@ -17,6 +17,7 @@ pub fn run(id: &str, tier: &str, seed: u64) -> Result<String, String> {
         "bgzf-seek-read" => crate::bgzfseek::bgzf_seek_read(tier),
         "chunked-readers" => crate::chunked::chunked_readers(tier),
         "writer-sinks" => crate::sinks::writer_sinks(tier),
+        "fasta-index-query" => crate::fastaq::fasta_index_query(tier),
         "cram-decoders-hostile" => cram_decoders_hostile(tier, seed),
         n if n.starts_with("file-") && n.contains(':') => { let (t, h) = n[5..].split_once(':').unwrap(); let x: Vec<u8> = (0..h.len() / 2).map(|i| u8::from_str_radix(&h[2 * i..2 * i + 2], 16).unwrap()).collect(); let ts = crate::hostile::targets(); let t = ts.iter().find(|k| k.name == t).ok_or("unknown target")?; (t.run)(&x); Ok("\"ran\":1".into()) }
         "file-mutations" => crate::hostile::parent(tier, None),
@@ -115,6 +116,49 @@ fn cram_codecs_roundtrip(tier: &str, seed: u64, only: Option<&str>) -> Result<St
         }
         for (nm, fl) in [("aac-o0", aac::Flags::empty()), ("aac-o1", aac::Flags::ORDER), ("aac-rle", aac::Flags::RLE), ("aac-pack", aac::Flags::PACK)] {
             run(nm, &|| aac::verif_hooks::encode(fl, x), &|e| aac::verif_hooks::decode(e, n));
+        }
+    }
+    // ---- fqzcomp: quality strings cut into records of given lengths (equal, single, unequal with equal first and last, ragged) ----
+    {
+        use noodles_cram::codecs::verif_hooks as vh;
+        let mut fq = |what: &str, lens: Vec<usize>, q: Vec<u8>| {
+            if !want("fqzcomp") || lens.iter().any(|&l| l == 0) /* zero-length records: known F31 family, not a round-trip statement */ { return; }
+            cases += 1;
+            let (l2, q2) = (lens.clone(), q.clone());
+            let e = match std::panic::catch_unwind(move || vh::fqzcomp_encode(&l2, &q2)) { Ok(Ok(e)) => e, Ok(Err(_)) => return, Err(_) => { note("fqzcomp", format!("encode PANICS ({what})"), &q); return; } };
+            match std::panic::catch_unwind(move || vh::fqzcomp_decode(&e)) {
+                Ok(Ok(y)) if y == q => {}
+                Ok(Ok(_)) => note("fqzcomp", format!("decode(encode(x)) != x ({what}; record lengths {:?})", &lens[..lens.len().min(8)]), &q),
+                Ok(Err(e)) => note("fqzcomp", format!("decode of its own encoding returns Err('{e}') ({what})"), &q),
+                Err(_) => note("fqzcomp", format!("decode of its own encoding PANICS ({what})"), &q),
+            }
+        };
+        let qual = |n: usize, salt: u64| -> Vec<u8> { prng(0xf9 ^ salt, n).iter().enumerate().map(|(i, b)| 33 + if i % 13 == 0 { 2 } else { 20 + b % 21 }).collect() };
+        for (k, lens) in [vec![1usize], vec![4], vec![10, 10, 10], vec![10, 5, 10], vec![10, 10, 5], vec![5, 10, 10], vec![151, 151, 97, 151, 33, 120, 151], vec![100; 40], (1..=60).collect::<Vec<_>>(), (0..200).map(|i| 30 + (i * 7) % 23).collect::<Vec<_>>(), vec![36, 36, 36, 1, 36]].into_iter().enumerate() {
+            let n: usize = lens.iter().sum();
+            fq(if lens.windows(2).all(|w| w[0] == w[1]) { "records of equal length" } else if lens.first() == lens.last() { "records of unequal length, the first and the last equal" } else { "records of unequal length" }, lens, qual(n, k as u64));
+        }
+        // ---- name tokenizer: name lists with padded / unpadded numbers, duplicates, changing token counts ----
+        let name_sets: Vec<(&str, Vec<String>)> = vec![
+            ("fixed-width counters", (0..300).map(|i| format!("read.{:05}/{}", i / 2, 1 + i % 2)).collect()),
+            ("unpadded counters", (0..300).map(|i| format!("r{}", i * 3)).collect()),
+            ("a zero-padded number followed by a shorter, larger one", vec!["run7:lane1:08".into(), "run7:lane1:9".into(), "x:003:a".into(), "x:4:a".into(), "s_08".into(), "s_009".into()]),
+            ("duplicates followed by a name sharing tokens", vec!["read:1:0007".into(), "read:2:0008".into(), "read:2:0008".into(), "read:3:0009".into(), "read:3:0009".into(), "read:3:0010".into()]),
+            ("changing token counts", vec!["a".into(), "a.b".into(), "a.b.c.1".into(), "a".into(), "7".into(), "007".into(), "a:b:c:d:e:f:g:h:1:2:3".into(), "a:b".into()]),
+            ("illumina style", (0..400).map(|i| format!("A00111:{}:HXXXXXXX:{}:{}:{}:{} {}:N:0:ACGT", 60 + i / 200, 1 + i / 100 % 4, 1101 + i / 10, 1000 + (i * 37) % 30000, 1000 + (i * 91) % 30000, 1 + i % 2)).collect()),
+        ];
+        for (what, names) in name_sets {
+            if !want("tok3") { continue; }
+            cases += 1;
+            let mut src = Vec::new(); for n in &names { src.extend_from_slice(n.as_bytes()); src.push(0); }
+            let s2 = src.clone();
+            let e = match std::panic::catch_unwind(move || vh::name_tokenizer_encode(&s2)) { Ok(Ok(e)) => e, Ok(Err(_)) => continue, Err(_) => { note("tok3", format!("encode PANICS ({what})"), &src); continue; } };
+            match std::panic::catch_unwind(move || vh::name_tokenizer_decode(&e)) {
+                Ok(Ok(y)) if y == src => {}
+                Ok(Ok(y)) => { let got: Vec<&[u8]> = y.split(|&b| b == 0).collect(); let i = names.iter().zip(got.iter()).position(|(a, b)| a.as_bytes() != *b); note("tok3", format!("decode(encode(names)) != names ({what}; first difference at name {:?}: {:?} -> {:?})", i, i.map(|i| names[i].clone()), i.and_then(|i| got.get(i).map(|g| String::from_utf8_lossy(g).to_string()))), &src) }
+                Ok(Err(e)) => note("tok3", format!("decode of its own encoding returns Err('{e}') ({what})"), &src),
+                Err(_) => note("tok3", format!("decode of its own encoding PANICS ({what})"), &src),
+            }
         }
     }
     let _ = std::panic::take_hook();
@@ -531,6 +575,15 @@ fn cram_roundtrip(tier: &str) -> Result<String, String> {
     push(&mut small, "m.0015", 0, "sq1", 600, 9, "20M", "*", 0, 0, &rbases(1, 600, 20), "");
     push(&mut small, "u.0016", 4, "*", 0, 0, "*", "*", 0, 0, "GATTACA", "XU:i:255");
     push(&mut small, "u.0017", 4, "*", 0, 0, "*", "*", 0, 0, "NNNNACGT", "");
+    // (appended after the unplaced reads, so that the record numbers above stay what the known findings name) mates in the same slice whose ends depend on their OWN features (deletion, splice, insertion + clip): the template length is recomputed by the reader
+    push(&mut small, "t.del1", 99, "sq0", 200, 40, "8M3D12M", "=", 205, 25, &format!("{}{}", rbases(0, 200, 8), rbases(0, 211, 12)), "");
+    push(&mut small, "t.del1", 147, "sq0", 205, 40, "20M", "=", 200, -25, &rbases(0, 205, 20), "");
+    push(&mut small, "t.spl", 99, "sq0", 300, 40, "5M30N5M", "=", 310, 40, &format!("{}{}", rbases(0, 300, 5), rbases(0, 335, 5)), "");
+    push(&mut small, "t.spl", 147, "sq0", 310, 40, "10M", "=", 300, -40, &rbases(0, 310, 10), "");
+    push(&mut small, "t.del2", 99, "sq0", 400, 40, "20M", "=", 410, 35, &rbases(0, 400, 20), "");
+    push(&mut small, "t.del2", 147, "sq0", 410, 40, "10M5D10M", "=", 400, -35, &format!("{}{}", rbases(0, 410, 10), rbases(0, 425, 10)), "");
+    push(&mut small, "t.ins", 99, "sq0", 500, 40, "20M", "=", 505, 20, &rbases(0, 500, 20), "");
+    push(&mut small, "t.ins", 147, "sq0", 505, 40, "3S5M2I10M", "=", 500, -20, &format!("TTT{}GG{}", rbases(0, 505, 5), rbases(0, 510, 10)), "");
     // ---- a large single-reference-per-slice set: 10240 on sq0, 10240 on sq1, unmapped tail ----
     let mut big: Vec<String> = Vec::new();
     let nbig = 10240usize;
@@ -759,9 +812,12 @@ fn index_query(_tier: &str) -> Result<String, String> {
             ix.build(3) };
         csi::fs::write(dir.join("a.csi"), &csi_mem).map_err(|e| format!("csi write: {e}"))?;
         let csi_file = csi::fs::read(dir.join("a.csi")).map_err(|e| format!("csi read: {e}"))?;
-        let mut run = |iname: &str, query: &mut dyn FnMut(&noodles_core::Region) -> Result<Vec<String>, String>| {
-            for refname in ["sq0", "empty", "sq2"] { let rid = header.reference_sequences().get_index_of(refname.as_bytes()).unwrap();
-                for region in regions_for(refname) {
+        let mut run = |iname: &str, query: &mut dyn FnMut(&noodles_core::Region) -> Result<Vec<String>, String>, reuse: bool| {
+            // reuse: ONE reader serves every query, the regions are visited from the last to the first and each one twice in a row
+            // (a query must not depend on where an earlier query left the reader)
+            for refname in if reuse { ["sq2", "empty", "sq0"] } else { ["sq0", "empty", "sq2"] } { let rid = header.reference_sequences().get_index_of(refname.as_bytes()).unwrap();
+                let mut regs = regions_for(refname); if reuse { regs.reverse(); regs = regs.into_iter().flat_map(|r| [r.clone(), r]).collect(); }
+                for region in regs {
                     if refname != "sq0" && region.interval().start().map(usize::from).unwrap_or(1) > 100_000 { continue; }
                     // the spans come from the generator (start, reference span), not from the library's alignment_end
                     let expected: Vec<String> = recs.iter().filter(|r| r.reference_sequence_id() == Some(rid)).filter_map(|r| { let k = key(r); let (s, e) = *truth.get(&k)?; if region.interval().intersects((p(s)..=p(e)).into()) { Some(k) } else { None } }).collect();
@@ -773,7 +829,12 @@ fn index_query(_tier: &str) -> Result<String, String> {
                 } }
         };
         macro_rules! q { ($ix:expr) => { &mut |region: &noodles_core::Region| -> Result<Vec<String>, String> { let mut rd = noodles_bam::io::Reader::new(std::fs::File::open(&bam_path).map_err(|e| format!("open: {e}"))?); let h = rd.read_header().map_err(|e| format!("read_header: {e}"))?; let q = rd.query(&h, $ix, region).map_err(|e| format!("query: {e}"))?; q.records().map(|r| r.map(|r| { use sam::alignment::Record as _; r.name().map(|n| n.to_string()).unwrap_or_default() })).collect::<Result<Vec<_>, _>>().map_err(|e| format!("record: {e}")) } } }
-        run("BAI in memory", q!(&bai)); run("BAI from file", q!(&bai2)); run("CSI in memory", q!(&csi_mem)); run("CSI from file", q!(&csi_file));
+        run("BAI in memory", q!(&bai), false); run("BAI from file", q!(&bai2), false); run("CSI in memory", q!(&csi_mem), false); run("CSI from file", q!(&csi_file), false);
+        {
+            let mut rd = noodles_bam::io::Reader::new(std::fs::File::open(&bam_path).map_err(|e| format!("open: {e}"))?); let h = rd.read_header().map_err(|e| format!("read_header: {e}"))?;
+            macro_rules! qr { ($ix:expr) => { &mut |region: &noodles_core::Region| -> Result<Vec<String>, String> { let q = rd.query(&h, $ix, region).map_err(|e| format!("query: {e}"))?; q.records().map(|r| r.map(|r| { use sam::alignment::Record as _; r.name().map(|n| n.to_string()).unwrap_or_default() })).collect::<Result<Vec<_>, _>>().map_err(|e| format!("record: {e}")) } } }
+            run("BAI from file, one reader for all queries", qr!(&bai2), true); run("BAI in memory, one reader for all queries", qr!(&bai), true);   // (linear indexes only: the CSI runs above already list F2 once)
+        }
         // the unmapped query: every unplaced unmapped record, in file order, nothing else
         for (iname, ix) in [("BAI in memory", &bai), ("BAI from file", &bai2)] {
             let mut rd = noodles_bam::io::Reader::new(std::fs::File::open(&bam_path).map_err(|e| format!("open: {e}"))?); rd.read_header().map_err(|e| format!("read_header: {e}"))?;
